@@ -94,6 +94,21 @@ func checkInvariants(w *World, replaced bool, logLines []string) []invResult {
 		sort.Strings(lost)
 		add("no-loss", len(lost) == 0, fmt.Sprintf("%d admitted; lost: %s", len(admitted), strings.Join(lost, ", ")))
 	}
+	// admission window (C11), judged for the submissions made while `w.judging` was on (the inner operation of an
+	// asynchronous placement: it cannot complete before the block production it overlaps, which holds the pool lock): such
+	// a transaction, pooled now, must not be dated before the last block
+	if len(blocks) > 0 {
+		lastTs := blocks[len(blocks)-1].Timestamp()
+		var old []string
+		w.reqMu.Lock()
+		for _, t := range pool {
+			if _, ok := w.attempted[t.Id()]; ok && t.Timestamp() < lastTs {
+				old = append(old, fmt.Sprintf("%s dated %d is pooled although the last block is dated %d", t.Id()[:12], t.Timestamp(), lastTs))
+			}
+		}
+		w.reqMu.Unlock()
+		add("admission-window", len(old) == 0, strings.Join(old, "; "))
+	}
 	// utxo indexes
 	type key struct {
 		id string
